@@ -292,6 +292,42 @@ func execSigForks(c *ctx, in ev) []ev {
 			std = stded.Verify(stded.PublicKey(A), msg, sig)
 		})
 		return []ev{{"op": "EdVerify", "A": B(A), "sig": B(sig), "msglen": len(msg), "cls": in["cls"], "valid": false, "fork": fork, "std": std, "panic": p}}
+	case "KeyApi":
+		// the key types' Equal / Public methods next to the standard library's (beyond the listed properties: observed)
+		pair := gS(in, "pair")
+		e := ev{"op": op, "scheme": gS(in, "scheme"), "pair": pair, "fork_pub_eq": false, "std_pub_eq": false, "fork_priv_eq": false, "std_priv_eq": false,
+			"public_ok": false, "foreign_eq": false}
+		e["panic"] = guard(func() {
+			if gS(in, "scheme") == "ed25519" {
+				s1, s2 := hashBytes(c.seed, "keyapi-ed-1", 32), hashBytes(c.seed, "keyapi-ed-2", 32)
+				if pair == "same" {
+					s2 = append([]byte{}, s1...)
+				}
+				a, b := ed25519.NewKeyFromSeed(s1), ed25519.NewKeyFromSeed(s2)
+				sa, sb := stded.NewKeyFromSeed(s1), stded.NewKeyFromSeed(s2)
+				e["fork_pub_eq"], e["std_pub_eq"] = a.Public().(ed25519.PublicKey).Equal(b.Public()), sa.Public().(stded.PublicKey).Equal(sb.Public())
+				e["fork_priv_eq"], e["std_priv_eq"] = a.Equal(b), sa.Equal(sb)
+				e["public_ok"] = bytes.Equal(a.Public().(ed25519.PublicKey), sa.Public().(stded.PublicKey))
+				e["foreign_eq"] = a.Public().(ed25519.PublicKey).Equal(sa.Public()) || a.Equal(sa) // a key of another TYPE is never equal
+				return
+			}
+			c1, c2 := elliptic.P256(), elliptic.P256()
+			d1, d2 := kbScalar(c.seed, c1, "keyapi-1").Bytes(), kbScalar(c.seed, c1, "keyapi-2").Bytes()
+			switch pair {
+			case "same":
+				d2 = d1
+			case "diffCurve":
+				c2, d2 = elliptic.P384(), d1
+			}
+			a, _ := rawKey(c1, d1)
+			b, _ := rawKey(c2, d2)
+			e["fork_pub_eq"], e["std_pub_eq"] = a.PublicKey.Equal(&b.PublicKey), stdPub(&a.PublicKey).Equal(stdPub(&b.PublicKey))
+			e["fork_priv_eq"], e["std_priv_eq"] = a.Equal(b), stdPriv(a).Equal(stdPriv(b))
+			pk, ok := a.Public().(*ecdsa.PublicKey)
+			e["public_ok"] = ok && pk.X.Cmp(a.X) == 0 && pk.Y.Cmp(a.Y) == 0 && pk.Curve == a.Curve
+			e["foreign_eq"] = a.PublicKey.Equal(stdPub(&a.PublicKey)) || a.Equal(stdPriv(a))
+		})
+		return []ev{e}
 	case "EdSeq":
 		// a history of calls made one after the other by one goroutine
 		out := []ev{}
@@ -411,6 +447,9 @@ func genSigForks(c *ctx, emit func(ev)) {
 	r := newRand(c.seed, "sigforks")
 	want := func(s string) bool { return c.arg == "" || strings.Contains(","+c.arg+",", ","+s+",") }
 	if want("ecdsa") {
+		for _, p := range []string{"same", "diffD", "diffCurve"} {
+			emit(ev{"op": "KeyApi", "scheme": "ecdsa", "pair": p})
+		}
 		dlens := []int{0, 1, 20, 32, 48, 64, 66, 128}
 		for cname, curve := range kbCurves {
 			key := sfKey(c.seed, curve, "k")
@@ -589,6 +628,9 @@ func genSigForks(c *ctx, emit func(ev)) {
 		}
 	}
 	if want("ed25519") {
+		for _, p := range []string{"same", "diffD"} {
+			emit(ev{"op": "KeyApi", "scheme": "ed25519", "pair": p})
+		}
 		seeds := [][]byte{make([]byte, 32), bytes.Repeat([]byte{0xff}, 32)}
 		for i := 0; i < c.tierInt(200, 4000); i++ {
 			seeds = append(seeds, randBytes(r, 32))
